@@ -6,6 +6,7 @@ import EaselModel.Alphabet.TypeModel
 import EaselModel.Alphabet.Sq2Model
 import EaselModel.Alphabet.Model3
 import EaselModel.Alphabet.ObjModel
+import EaselModel.Alphabet.CopyReuseModel
 import EaselModel.Generated.AlphabetsAux
 /-! Line-protocol driver for the C08 model (same ops as harness/h_alphabet.c). -/
 open EaselModel EaselModel.Proto EaselModel.Alphabet
@@ -351,9 +352,9 @@ def step (s : S) (line : String) : S × String :=
     | none => (s, "fault")
     | some o =>
       let toks := ((arg? ws "script").getD "").splitOn "," |>.filter (fun t => t ≠ "" && t ≠ "-")
-      match Sq.SqObj.script a o toks [] with
+      match Sq.SqObj.script2 (Generated.AlphabetsAux.sqCopyReusedProbe == 0) a o none toks [] with
       | none => (s, "fault")
-      | some (ws', o') => (s, " ".intercalate (ws' ++ [o'.line hx]))
+      | some (ws', o', P) => (s, " ".intercalate (ws' ++ [o'.line hx] ++ (match P with | some p => ["|| P:", p.line hx] | none => [])))
   else if op == "sqrevtext" then
     let txt := argBytes ws "hex"
     if cstr txt ≠ txt then (s, "bad-op") else
